@@ -39,6 +39,10 @@ def leafsets_files(ctx, inst, k, path):
     return name, {os.path.join(d, name + ".tla"): name + ".tla", os.path.join(d, name + ".cfg"): name + ".cfg", path: "canon_leaves.ndjson"}
 
 
+# hint sites outside GlGadgets' four inside this code region are probed with generic alternatives after run() (bin/check, common.Ctx.foreign)
+FOREIGN = (("rangeCheckProof", "RangeCheckQE"), ("testdata",))
+
+
 def run(ctx):
     ctx.rule = ("(instance, Goldilocks-valued proof leaf, k) with the leaf replaced by value + k*p, k in {1, 2, 2^64, max}; quick: a seeded stride through all "
                 "leaves of two proofs (every class is hit), thorough: every position of every proof; skipped when value + k*p >= r")
